@@ -252,17 +252,40 @@ def _shape_case(args):
             if '_ctx' in e:
                 real, nodes, toks = e.pop('_ctx')
                 e['labels'] = [label_of(n.rule) for n in nodes]
-                # region of known finding F19: a ?rule collapsing to a single *token* whose span is narrower than the rule's (filtered tokens at its ends)
-                f19 = False
+                # region of known finding F19: a ?rule collapsing (possibly through inlined helper rules and further ?rules) to a single *token*
+                # whose span is narrower than what the rule matched (filtered tokens at its ends)
                 from lark import Token as _Tok
+                def _result(n):
+                    """what the node contributes after shaping: ('tok', token) | ('node', raw)"""
+                    r = n.rule
+                    if r.options.expand1 and not r.alias:
+                        ks = _kids(n)
+                        if len(ks) == 1:
+                            return ks[0]
+                    return ('node', n)
+                def _kids(n):
+                    r = n.rule
+                    out = []
+                    for c, s_ in zip(n.children, r.expansion):
+                        if isinstance(c, _Tok):
+                            if r.options.keep_all_tokens or not s_.filter_out:
+                                out.append(('tok', c))
+                        elif s_.name.startswith('_'):
+                            out.extend(_kids(c))
+                        else:
+                            out.append(_result(c))
+                    return out
+                f19 = False
                 for n in nodes:
                     r = n.rule
                     if r.options.expand1 and not r.alias:
-                        kept = [c for c, s_ in zip(n.children, r.expansion) if r.options.keep_all_tokens or not (s_.is_term and s_.filter_out)]
-                        if len(kept) == 1 and isinstance(kept[0], _Tok):
-                            f, l = span_of(n)
-                            if f is not kept[0] or l is not kept[0]:
+                        res_ = _result(n)
+                        f, l = span_of(n)
+                        if res_[0] == 'tok':
+                            if f is not res_[1] or l is not res_[1]:
                                 f19 = True
+                        elif mp and r.options.empty_indices and sum(1 for b_ in r.options.empty_indices if b_) == 1 and not _kids(n) and f is not None:
+                            f19 = True      # ... or to a single None placeholder although the rule matched (filtered) tokens
                 e['f19_region'] = f19
                 e['toks'] = [[t.type, t.value if not isinstance(t.value, bytes) else t.value.decode('latin-1'), t.start_pos, t.end_pos, t.line, t.column, t.end_line, t.end_column] for t in toks]
                 spans = []
